@@ -2148,7 +2148,89 @@ def _strip_ctx(node):
     return node
 
 
-RULES = [rule_symmetric, rule_const, rule_nodes, rule_flood, rule_seed, rule_unique, rule_propagate, rule_residence, rule_netblock, rule_overlap]
+def rule_pending_flag(repo):
+    """A connection added after elaboration must invalidate the cached nets of the object that owns the whole-design
+    adjacency map (the elaborated top): get_all_value_nets() re-resolves only when the top's pending flag is set."""
+    r = RuleResult('R-C08-pending', "adding a connection after elaboration marks the cached nets of the elaborated top as stale")
+    m = repo.mod(COMP)
+    for q in ('Component.add_connection',):
+        f = m.get_func(q)
+        adds = [c for c in ast.walk(f) if isinstance(c, ast.Call) and isinstance(c.func, ast.Attribute) and c.func.attr in ('add', 'update')
+                and 'all_adjacency' in norm(c.func.value)]
+        flags = [a for a in ast.walk(f) if isinstance(a, ast.Assign) and any(norm(t).endswith('._dsl._has_pending_value_connections') for t in a.targets)]
+        if not adds:
+            raise AnalysisError(f"{q}: no insertion into all_adjacency found")
+        owners = {norm(c.func.value).split('._dsl.')[0] for c in adds}
+        cons = f"{q}: all_adjacency of {sorted(owners)} modified; pending flag set on {[norm(a.targets[0]).split('._dsl.')[0] for a in flags]}"
+        if not flags or any(norm(a.value) != 'True' for a in flags):
+            r.bad(m, q, cons, "the cached value nets are not invalidated: the new connection never becomes part of a net", f.lineno)
+        elif {norm(a.targets[0]).split('._dsl.')[0] for a in flags} != owners:
+            r.bad(m, q, cons, "the pending flag is set on another object than the one whose whole-design adjacency was changed: a connection "
+                  "hosted by a child component is never resolved into a net (the top keeps serving its cached nets)", flags[0].lineno)
+        elif any(g.kind == 'if' for a in flags for g in guards_of(a) if not any(g.kind == 'if' and any(x is g.node for x in ast.walk(f)) and
+                                                                                 any(c_ is not None for c_ in [1]) and False for _ in [0])) and \
+                not all({norm(g.test) for g in guards_of(a) if g.kind == 'if'} <= {norm(g.test) for c in adds for g in guards_of(c) if g.kind == 'if'} for a in flags):
+            r.bad(m, q, cons, "the pending flag is set under a narrower condition than the insertion of the edge", flags[0].lineno)
+        else:
+            r.ok(m, q, cons)
+    # the consumer tests the flag of the object it is called on (the top)
+    g = m.get_func('Component.get_all_value_nets')
+    fl = m.get_func('Component._flush_pending_value_connections')
+    me = fl.args.args[0].arg
+    ifs = [s_ for s_ in fl.body if isinstance(s_, ast.If) and norm(s_.test) == f'{me}._dsl._has_pending_value_connections']
+    ok = len(ifs) == 1 and any(norm(x) == f'{me}._dsl.all_value_nets = {me}._resolve_value_connections()' for x in ifs[0].body) and \
+        any(isinstance(c, ast.Call) and norm(c.func).endswith('._flush_pending_value_connections') for c in ast.walk(g)) and \
+        any(isinstance(x, ast.Return) and norm(x.value).endswith('._dsl.all_value_nets') for x in ast.walk(g))
+    (r.ok if ok else r.bad)(m, 'Component.get_all_value_nets', 'nets are re-resolved when the pending flag is set',
+                            *([] if ok else ["cached nets are never refreshed", g.lineno]))
+    r.require_floor(2)
+    return r
+
+
+def rule_ancestors(repo):
+    """When a net gets its writer, each reader becomes a (propagatable) writer and EVERY signal ancestor of the reader becomes
+    partially driven (unpropagatable): nets whose writer is an intermediate ancestor rely on it."""
+    r = RuleResult('R-C08-ancestors', "a driven field / slice marks every enclosing signal (not only the outermost) as partially driven")
+    m = repo.mod(L3)
+    f = m.get_func('ComponentLevel3._resolve_value_connections')
+    marks = [a for a in ast.walk(f) if isinstance(a, ast.Assign) and isinstance(a.targets[0], ast.Subscript) and norm(a.targets[0].value) == 'writer_prop'
+             and norm(a.value) == 'False']
+    n_ok = 0
+    for a in marks:
+        wl = enclosing(a, (ast.While,))
+        if wl is None:
+            continue
+        obj = norm(a.targets[0].slice)
+        step = [s_ for s_ in wl.body if isinstance(s_, ast.Assign) and norm(s_) == f"{obj} = {obj}.get_parent_object()"]
+        ok = norm(wl.test) == f"{obj}.is_signal()" and step and not any(isinstance(x, (ast.Break, ast.Continue)) for x in ast.walk(wl))
+        if ok:
+            pre = [s_ for s_ in preceding_stmts(wl) if isinstance(s_, ast.Assign) and norm(s_.targets[0]) == obj]
+            ok = bool(pre) and norm(pre[-1].value).endswith('.get_parent_object()')
+        if ok:
+            n_ok += 1
+            r.ok(m, 'ComponentLevel3._resolve_value_connections', f"while {obj}.is_signal(): mark {obj} unless marked; {obj} = parent")
+    if n_ok < 2:
+        r.bad(m, 'ComponentLevel3._resolve_value_connections', 'ancestor walk marking partially driven signals',
+              "not every signal ancestor of a written / newly driven object is marked as partially driven (expected in the writer seeding and "
+              "in the propagation step): a net whose writer is an intermediate ancestor (out //= x.a with x.a[0:4], x.a[4:8] driven) "
+              "ends without a writer -> spurious NoWriterError", f.lineno)
+    r.require_floor(1)
+    return r
+
+
+def rule_collectors(repo):
+    """slice signals (stored under tuple keys) must be reachable for the collectors used by add/delete component, otherwise stale
+    slices stay in the connection graph (shared with C14: R-C14-collect)"""
+    from rules.c14 import rule_collect
+    res = rule_collect(repo)
+    # only the collector side matters for nets (the naming side of that rule is C14's business, incl. its known finding D18)
+    res.findings = [f for f in res.findings if '_collect_all' in f.func]
+    res.instances = [i for i in res.instances if i['verdict'] != 'VIOLATED' or '_collect_all' in i['function']]
+    return res
+
+
+RULES = [rule_symmetric, rule_const, rule_nodes, rule_flood, rule_seed, rule_unique, rule_propagate, rule_residence, rule_netblock, rule_overlap,
+         rule_pending_flag, rule_ancestors, rule_collectors]
 
 
 # ---------------------------------------------------------------------------------------------------------------
@@ -2158,6 +2240,8 @@ def _m(name, file, old, new, rule=None, count=1):
 
 
 MUTANTS = [
+    dict(name='pending-flag-on-host', file=COMP, old="      top._dsl.all_adjacency[o2].add(o1)\n      top._dsl._has_pending_value_connections = True", new="      top._dsl.all_adjacency[o2].add(o1)\n      real_host._dsl._has_pending_value_connections = True", rule='R-C08-pending', count=1),
+    dict(name='ancestors-top-only', file=L3, old="            obj = v.get_parent_object()\n            while obj.is_signal():\n              if obj not in writer_prop:\n                writer_prop[ obj ] = False\n              obj = obj.get_parent_object()", new="            obj = v.get_top_level_signal()\n            if obj is not v and obj not in writer_prop:\n              writer_prop[ obj ] = False", rule='R-C08-ancestors', count=1),
     # --- adjacency symmetry
     _m('sigsig-one-direction', L3, "      s._dsl.adjacency[o1].add( o2 )\n      s._dsl.adjacency[o2].add( o1 )\n\n      s._dsl.connect_order",
        "      s._dsl.adjacency[o1].add( o2 )\n\n      s._dsl.connect_order", 'R-C08-symmetric'),
